@@ -89,11 +89,11 @@ TraceNext ==
      ELSE LET r == Step(st, e) IN
           IF r.ok
           THEN /\ st' = r.st /\ mode' = "run"
-               /\ (r.warn # "" => PrintT(<<"WARN", l, st.case, r.warn>>))
-          ELSE /\ PrintT(<<"FAIL", l, st.case, r.what>>)
+               /\ (r.warn # "" => PrintT("WARN|" \o ToString(l) \o "|" \o st.case \o "|" \o r.warn \o "|"))
+          ELSE /\ PrintT("FAIL|" \o ToString(l) \o "|" \o st.case \o "|" \o r.what \o "|")
                /\ mode' = "skip" /\ UNCHANGED st
 
 TraceSpec == TraceInit /\ [][TraceNext]_tvars
 
-Consumed == (l = Len(Trace) + 1) => PrintT(<<"CONSUMED", Len(Trace)>>)
+Consumed == (l = Len(Trace) + 1) => PrintT("CONSUMED|" \o ToString(Len(Trace)))
 =============================================================================
